@@ -147,7 +147,13 @@ C06Prop == [][C06Step]_vars
 (* signing makes the signer verify; obscuring / adding assertions never changes any verdict;
    a different subject never verifies under an old signature *)
 C09Step ==
-  /\ (Op \in {"add_signature", "sign"} /\ OkStep) => HasSignatureFrom(Res, Arg(2))
+  (* a signature that was added verifies.  A deterministic signature whose assertion is already
+     present in obscured form (say with its object elided) is the same assertion: add_assertion's
+     digest check absorbs it (C07) and nothing is added - the envelope comes back unchanged *)
+  /\ (Op \in {"add_signature", "sign"} /\ OkStep /\ Res # Src) => HasSignatureFrom(Res, Arg(2))
+  /\ (Op = "add_signature" /\ OkStep /\ Res = Src /\ Arg(3) = {}) =>
+        /\ DetSigner(Arg(2))
+        /\ \E x \in Assertions(Src) : Dg(x) = Dg(Assn(KV(KvSigned), SigLeaf(<<0, 0>>, Arg(2), Dg(Subject(Src)))))
   /\ (Op = "add_signature" /\ OkStep) =>
         (\A k \in Signers \ {Arg(2)} : HasSignatureFrom(Res, k) <=> HasSignatureFrom(Src, k))
   /\ (Op \in {"elide_set", "add_assertion"} /\ OkStep /\ Dg(Subject(Res)) = Dg(Subject(Src))
